@@ -636,6 +636,34 @@ impl IggyConsumer {
                         .messages
                         .retain(|message| message.offset > consumed_offset);
                     if polled_messages.messages.is_empty() {
+                        // Everything the server returned has been consumed already. Unless the consumed
+                        // offset gets committed, the next poll returns the very same messages again and the
+                        // consumer never moves on (e.g. commit every n-th message with a smaller batch size).
+                        if auto_commit_enabled {
+                            let stored_offset = last_stored_offset
+                                .get(&partition_id)
+                                .map_or(0, |entry| entry.load(ORDERING));
+                            if stored_offset < consumed_offset {
+                                client
+                                    .read()
+                                    .await
+                                    .store_consumer_offset(
+                                        &consumer,
+                                        &stream_id,
+                                        &topic_id,
+                                        Some(partition_id),
+                                        consumed_offset,
+                                    )
+                                    .await?;
+                                if let Some(entry) = last_stored_offset.get(&partition_id) {
+                                    entry.store(consumed_offset, ORDERING);
+                                } else {
+                                    last_stored_offset
+                                        .insert(partition_id, AtomicU64::new(consumed_offset));
+                                }
+                            }
+                        }
+
                         return Ok(PolledMessages {
                             messages: EMPTY_MESSAGES,
                             current_offset: polled_messages.current_offset,
